@@ -30,7 +30,11 @@ EXPLANATION = ("V1 positional decode (path-sensitive abstract evaluation with a 
 # entry reaches `construct` at all: the TLV parser keeps every child of a constructed element, ends the children loop only when the
 # content is used up, refuses nothing but a failed primitive or nesting beyond the bound, and what it compares with that bound is the
 # nesting depth (not the number of attributes / values met so far).  Decided by C07's B7 family on the parser's paths.
-SHARED = [('C07', ('B7.',), 'V3.every-well-formed-entry-is-parsed')]
+# "no value is lost, duplicated or altered": a value reaches `construct` as the content octets the TLV parser cut out of the entry, and how
+# many octets that is, is what the length reader says - a long-form length read as another number (a wrong shift, a wrong octet count)
+# hands `construct` a truncated value and misparses everything after it.  Decided by C07's B2 reader family (which form, how many
+# length octets, their big-endian value by exact literal evaluation for every octet count that occurs, Incomplete while they are missing).
+SHARED = [('C07', ('B7.',), 'V3.every-well-formed-entry-is-parsed'), ('C07', ('B2.reader',), 'V4.value-lengths-are-read-exactly')]
 TRUSTED = ['std iterator adapters (map, filter_map, collect) preserve order', 'HashMap entry API',
            'Iterator::{any, all, position, find} apply their predicate to the elements in order until the answer is certain; slice sort* / reverse permute']
 UNDECIDED = ['content equality of values', 'duplicate attribute types within one entry']
